@@ -1,7 +1,7 @@
 SPECIFICATION GSpec
 CONSTANTS
   NIf = 2
-  Kinds = {"ok", "fail"}
+  Kinds = {"ok"}
   Req = {"res1", "shut1"}
   Repaired = FALSE
   FixNoIf = FALSE
